@@ -35,6 +35,7 @@ type simExtra struct {
 	prevPoolHad            map[string]bool
 	provState              map[string]string
 	provSeen               int
+	compoundCheck          bool
 	frozenSinceFilter      bool
 	lastFilterPod          string
 }
@@ -56,12 +57,22 @@ type params struct {
 	faultEvery int // explore injections on every n-th step (0 = never)
 	faultMaxK  int // max call indices per explored op (0 = all)
 	routeEvery int // M-route on every n-th successful filter (0 = never)
+	interleave int // interleaved executions per explored step (0 = none)
 	templates  bool
 }
 
 func paramsFor(prop, tier string) params {
 	th := tier == "thorough"
 	p := params{prop: prop, steps: 45, faultEvery: 9, faultMaxK: 2, routeEvery: 4, templates: true}
+	switch prop {
+	case "C01", "C04", "C10":
+		p.interleave = 2
+	case "C05", "C09":
+		p.interleave = 1
+	}
+	if th {
+		p.interleave *= 2
+	}
 	if th {
 		p.steps = 70
 		p.faultEvery = 5
@@ -76,6 +87,9 @@ func paramsFor(prop, tier string) params {
 		}
 		p.routeEvery = 0
 	case "C08":
+		p.faultEvery = 3
+		p.routeEvery = 0
+	case "C10":
 		p.faultEvery = 3
 		p.routeEvery = 0
 	case "C06":
@@ -93,7 +107,7 @@ func paramsFor(prop, tier string) params {
 func cases(prop, tier string) int {
 	n := map[string][2]int{
 		"C01": {1500, 8000}, "C02": {8000, 40000}, "C03": {8000, 40000}, "C04": {1500, 8000},
-		"C05": {700, 3000}, "C06": {1000, 6000}, "C08": {900, 6000}, "C10": {1500, 8000},
+		"C05": {700, 3000}, "C06": {1000, 6000}, "C08": {900, 6000}, "C10": {1000, 8000},
 		"C07": {6000, 30000}, "C09": {1200, 8000},
 	}[prop]
 	if tier == "thorough" {
@@ -373,8 +387,21 @@ func runCase(seed int64, idx int, pr params) *caseResult {
 					}
 				}
 			}
+			// interleavings at API-call granularity: pause this operation at a call and run other operations meanwhile
+			for j := 0; j < pr.interleave && ncalls > 0; j++ {
+				c, err := pre.Clone(evid.NewRng(seed, "ilv", idx*100000+i*100+j))
+				if err != nil {
+					continue
+				}
+				k := 1 + c.rng.Intn(ncalls)
+				c.runInterleaved(op, k, c.rng.Intn(2) == 0, 1+c.rng.Intn(5))
+				res.counts["interleaved_executions"]++
+				if merge(c) {
+					return finish()
+				}
+			}
 			// provider call failing cleanly
-			for k := 1; k <= nprov && k <= 2; k++ {
+			for k := 1; k <= nprov && k <= 4; k++ {
 				c, err := pre.Clone(evid.NewRng(seed, "prov", idx*100000+i*100+k))
 				if err != nil {
 					continue
